@@ -675,6 +675,9 @@ struct Obs {
     cbal: Vec<u128>,
     eps: Vec<Ep>, // newest first
     trh: Vec<(u64, u128)>,
+    /// asset (index into the world's denoms, 999 = a denom that is none of them) of each take-rate record;
+    /// not printed: the model does not look at names
+    trha: Vec<(u64, usize)>,
     ub: Vec<u128>,
     cl: Vec<Vec<u64>>,
     pp: Vec<(u128, u128)>,
@@ -1359,6 +1362,7 @@ impl World {
         let cur: fd::EpochResponse = q.query_wasm_smart(&self.dist, &fd::QueryMsg::CurrentEpoch {}).unwrap();
         let mut eps = vec![];
         let mut trh = vec![];
+        let mut trha = vec![];
         let n = cur.epoch.id.u64();
         for id in (1..=n).rev() {
             let e: fd::EpochResponse = q.query_wasm_smart(&self.dist, &fd::QueryMsg::Epoch { id: id.into() }).unwrap();
@@ -1379,6 +1383,7 @@ impl World {
                 q.query_wasm_smart(&self.col, &fc::QueryMsg::TakeRateHistory { epoch_id: Uint64::new(id) });
             if let Ok(c) = t {
                 trh.push((id, c.amount.u128()));
+                trha.push((id, self.assets.iter().position(|d| *d == c.denom).unwrap_or(999)));
             }
         }
         let ccfg: fc::Config = q.query_wasm_smart(&self.col, &fc::QueryMsg::Config {}).unwrap();
@@ -1436,6 +1441,7 @@ impl World {
             cbal: self.assets.iter().map(|d| bal(&self.app, &self.col, d)).collect(),
             eps,
             trh,
+            trha,
             ub: self.users.iter().map(|u| bal(&self.app, u, &self.assets[DIST])).collect(),
             cl,
             pp: (0..self.pools.len()).map(|i| self.pool_pending(i)).collect(),
@@ -3652,6 +3658,14 @@ impl Feeflow {
             "take_exact",
             rec == if dao_got > 0 { Some(dao_got) } else { None } && pre.trh.iter().all(|x| post.trh.contains(x)) && post.trh.len() == pre.trh.len() + (dao_got > 0) as usize,
             d(format!("take-rate history for epoch {id}: {:?}, DAO got {dao_got}", rec)),
+        );
+        // the record is a coin of the asset the DAO was paid in: the distribution asset in force (seed C10-N)
+        let rec_asset = post.trha.iter().find(|(i, _)| *i == id).map(|(_, a)| *a);
+        mon.check(
+            "C10",
+            "take_recorded_in_distribution_asset",
+            rec_asset.is_none() || rec_asset == Some(pre.dist),
+            d(format!("take-rate history for epoch {id} is a coin of asset {:?}, the distribution asset is {}", rec_asset, pre.dist)),
         );
         mon.stat(if !pre.active {
             "take_inactive"
